@@ -231,9 +231,6 @@ LADDER_FAMILIES_WXML = {
     "mixed-text": lambda n: ("<x>" + "a{{b}}" * 50 + "</x>") * (n // 307),
     "for-nest": lambda n: "<a wx:for=\"{{l}}\">" * 30 + "<x>{{item}}</x>" * (n // 15) + "</a>" * 30,
     "strings": lambda n: "{{ '" + "\\x4" * (n // 3) + "' }}",
-    # one text node / one attribute made of a flat run of bindings (the parser builds a left-deep concatenation)
-    "flat-bindings": lambda n: "<x>" + "{{a}}" * (n // 5) + "</x>",
-    "flat-bindings-attr": lambda n: "<x c=\"" + "{{a}} " * (n // 6) + "\"/>",
 }
 LADDER_FAMILIES_CSS = {
     "rules": lambda n: ".a .b{width:1rpx}" * (n // 17),
@@ -468,8 +465,6 @@ def run(run, pid, tier, seed, replay=None):
         sizes = [1 << k for k in range(10, 17)] if tier == "thorough" else [1 << k for k in (10, 12, 14)]
         for name, f in LADDER_FAMILIES_WXML.items():
             for n in sizes:
-                if name.startswith("flat-bindings") and n > 1 << 15:
-                    continue  # (far below the run length at which the recorded stack overflow starts)
                 add("tmpl", "ladder:" + name, f(n), {"path": "a", "ladder": (name, n)})
         for name, f in LADDER_FAMILIES_CSS.items():
             for n in sizes:
@@ -576,18 +571,6 @@ def run(run, pid, tier, seed, replay=None):
             expo[f"{kind}:{name}:{profile}"] = {"steps": round(es, 2), "heap": round(eh, 2), "points": len(pts)}
             if es > GROWTH_MAX or eh > GROWTH_MAX:
                 run.violation(f"size ladder {kind}:{name} ({profile}) grows with exponent steps={es:.2f} heap={eh:.2f} (> {GROWTH_MAX})", {"kind": kind, "src": "ladder family " + name, "points": pts})
-    # finding recorded by its witness only: a flat run of very many bindings in one text node overflows the stack
-    kf = {k["finding"]: k["text"] for k in common.known_for("C01") if k.get("finding")}
-    if not replay and "flat-binding-run-overflows-the-stack" in kf:
-        gev = common.build_gev("shipped")
-        src = "<x>" + "{{a}}" * 120000 + "</x>"
-        r = common.run_gev(gev, "total", [{"id": 0, "kind": "tmpl", "src": src, "path": "a"}], shards=1, cpu_per_case=300).get(0)
-        if r and r.get("crash") and "overflowed its stack" in (r["crash"].get("stderr") or ""):
-            run.known("flat-binding-run-overflows-the-stack", kf["flat-binding-run-overflows-the-stack"])
-        elif r is None or r.get("inconclusive") or r.get("crash"):
-            common.log("the witness of finding flat-binding-run-overflows-the-stack was inconclusive: " + str(r)[:200])
-        else:
-            common.log("STALE-FINDING flat-binding-run-overflows-the-stack: the recorded witness no longer reproduces")
     run.extra["growth_exponents"] = expo
     run.extra["observed_maxima"] = {k: round(v, 3) for k, v in maxima.items()}
     run.extra["envelopes"] = {"A_steps": A_STEPS, "B_heap": B_HEAP, "C_heap": C_HEAP}
